@@ -15,6 +15,7 @@ import Driver.ShaCrypt
 import Driver.Backend
 import Driver.Libpass
 import Driver.Verify
+import Driver.TotpSerial
 /-
 Line protocol driver: `<suite> <op> <args…>` per input line, one result line out.
 Compiled (`lean_exe modeldrv`); nothing imported here touches Mathlib.
@@ -38,6 +39,7 @@ def dispatch (line : String) : String :=
   | "backend" :: rest => Driver.Backend.handle rest
   | "lp" :: rest => Driver.Libpass.handle rest
   | "vfy" :: rest => Driver.Verify.handle rest
+  | "tser" :: rest => Driver.TotpSerial.handle rest
   | _ => Driver.bad
 
 partial def loop (h : IO.FS.Stream) (out : IO.FS.Stream) : IO Unit := do
